@@ -183,12 +183,10 @@ fn peek_bus(bus: &Bus, addr: u32) -> Option<u8> {
 pub fn set_code(cpu: &mut Cpu, base: u32, bytes: &[u8]) {
     unsafe {
         FP.code_base = base;
-        FP.code_len = bytes.len() as u32;
-        let mut i = 0;
-        while i < bytes.len() && i < CODE_MAX {
-            FP.code[i] = bytes[i];
-            i += 1;
-        }
+        let n = if bytes.len() < CODE_MAX { bytes.len() } else { CODE_MAX };
+        FP.code_len = n as u32;
+        // (memcpy instead of a loop: keeps the unwinding bound a harness needs small)
+        FP.code[..n].copy_from_slice(&bytes[..n]);
     }
     #[cfg(not(kani))]
     for (i, b) in bytes.iter().enumerate() {
@@ -201,12 +199,9 @@ pub fn set_code(cpu: &mut Cpu, base: u32, bytes: &[u8]) {
 pub fn set_window(cpu: &mut Cpu, idx: usize, base: u32, bytes: &[u8]) {
     unsafe {
         FP.win[idx].base = base;
-        FP.win[idx].len = bytes.len() as u32;
-        let mut i = 0;
-        while i < bytes.len() && i < WCAP {
-            FP.win[idx].data[i] = bytes[i];
-            i += 1;
-        }
+        let n = if bytes.len() < WCAP { bytes.len() } else { WCAP };
+        FP.win[idx].len = n as u32;
+        FP.win[idx].data[..n].copy_from_slice(&bytes[..n]);
         FP.win[idx].written = false;
         FP.win[idx].read = false;
     }
